@@ -261,6 +261,16 @@ func hazards(t interface{}) string {
 // endsInOpenJoin: the statement text ends with "JOIN <table>" without ON / USING, so that a following
 // ON DUPLICATE KEY would be read as the join condition once the parentheses around the SELECT are dropped.
 func endsInOpenJoin(rows sqlparser.InsertRows) bool {
+	if u, isUnion := rows.(*sqlparser.Union); isUnion {
+		// the text ends with the union's last member
+		if u.OrderBy != nil || u.Limit != nil || u.Lock != "" {
+			return false
+		}
+		if right, ok := u.Right.(*sqlparser.Select); ok {
+			return endsInOpenJoin(right)
+		}
+		return false
+	}
 	sel, ok := rows.(*sqlparser.Select)
 	if !ok || sel.Where != nil || sel.GroupBy != nil || sel.Having != nil || sel.OrderBy != nil || sel.Limit != nil || sel.Lock != "" || len(sel.From) == 0 {
 		return false
